@@ -114,7 +114,7 @@ def outErrs (env : Env) (sup : Support) (inStruct inResOpt : Bool) : TyName → 
     | .named n =>
       if isOpaque env (.named n) then [.optOpaqueByValue]
       else if inStruct && sd = .std then [.stdOptionInStruct]
-      else (if sup.option then [] else [.optionUnsupported]) ++ outErrs env sup inStruct true (.named n)
+      else (if sup.option then [] else [.optionUnsupported]) ++ outErrs env sup inStruct false (.named n)
     | .prim _ =>
       if inStruct && sd = .std then [.stdOptionInStruct]
       else if sup.option then [] else [.optionUnsupported]
